@@ -10,29 +10,35 @@ import (
 	"rosim/simrt"
 )
 
-// InitDone is set by the harness once package initialisation is over. Before that, Now returns a
-// fixed instant one hour before the bubble epoch, so that package-level "start time" variables
-// (internal/xtime) are consistent with readings taken inside a run.
+// InitDone is kept for compatibility with older harness code; it is not needed any more.
 var InitDone bool
 
 // BubbleEpoch is where testing/synctest starts its fake clock.
 var BubbleEpoch = time.Date(2000, 1, 1, 0, 0, 0, 0, time.UTC)
 
-const initUptime = time.Hour
+// processUptime is how long the process has been "up" when a simulated run starts: ro's
+// internal/xtime measures time.Since(<instant captured at package initialisation>), and that instant
+// is a real wall-clock reading taken long before the simulated epoch.
+const processUptime = time.Hour
+
+var realishCutoff = time.Date(2010, 1, 1, 0, 0, 0, 0, time.UTC)
 
 //go:norace
 func Now() time.Time {
 	if k := simrt.K; k != nil {
 		return k.Epoch.Add(k.Now())
 	}
-	if !InitDone {
-		return BubbleEpoch.Add(-initUptime)
-	}
 	return time.Now()
 }
 
 //go:norace
-func Since(t time.Time) time.Duration { return Now().Sub(t) }
+func Since(t time.Time) time.Duration {
+	if k := simrt.K; k != nil && t.After(realishCutoff) {
+		// t was read from the real clock (package initialisation), the run lives on the simulated one
+		return processUptime + k.Now()
+	}
+	return Now().Sub(t)
+}
 
 //go:norace
 func Until(t time.Time) time.Duration { return t.Sub(Now()) }
